@@ -71,6 +71,7 @@ func runC17(c *Ctx) {
 	c.rule("R-DIV-NONZERO", 2, "every integer / and % in package slice has a divisor proved non-zero")
 	c.rule("R-INDEX-GUARD", 2, "At/PtrAt: the index into the parameter slice satisfies 0 <= idx < len by a dominating successful range check")
 	c.rule("R-SWAP-ONLY", 2, "every element store into Partition's input is half of an exchange of two elements loaded before either store")
+	ruleAllocBounded(c, "slice", true)
 
 	// ---- R-CLIP
 	for _, fname := range []string{"Partition", "Chunks", "Batches"} {
@@ -288,5 +289,153 @@ func runC17(c *Ctx) {
 		if total == 0 {
 			c.undecided("R-SWAP-ONLY", "slice.Partition", fn.Pos(), "no element store found")
 		}
+	}
+}
+
+// ruleAllocBounded: a function that cuts an input slice into pieces takes a
+// count from its caller; the documentation caps that count at the length of the
+// input.  An allocation sized by the bare count parameter must therefore be
+// reached only with the count bounded (a dominating test against a length, or
+// the clamped value itself): otherwise a huge count panics in make although the
+// call is valid.
+func ruleAllocBounded(c *Ctx, pkg string, needSliceParam bool) {
+	floor := 1
+	if !needSliceParam {
+		floor = 0 // no instance on the unchanged tree of that package; the seeded change is the positive example
+	}
+	c.rule("R-ALLOC-BOUNDED", floor, "an allocation sized by a count parameter is reached only after the count has been bounded by a length")
+	for _, fn := range c.P.PkgFuncs(pkg) {
+		hasSlice := false
+		for _, p := range fn.Params {
+			if sliceLike(p.Type()) {
+				hasSlice = true
+			}
+		}
+		if (needSliceParam && !hasSlice) || fn.Parent() != nil {
+			continue
+		}
+		isParam := func(v ssa.Value) *ssa.Parameter {
+			p, _ := v.(*ssa.Parameter)
+			return p
+		}
+		bounded := func(p *ssa.Parameter, b *ssa.BasicBlock, extra *Cmp) bool {
+			cms := cmpsAt(b)
+			if extra != nil {
+				cms = append(cms, *extra)
+			}
+			for _, cm := range cms {
+				if cm.X == ssa.Value(p) && (cm.Op == token.LEQ || cm.Op == token.LSS || cm.Op == token.EQL) {
+					if _, isK := constInt(cm.Y); !isK {
+						return true
+					}
+				}
+				if cm.Y == ssa.Value(p) && (cm.Op == token.GEQ || cm.Op == token.GTR || cm.Op == token.EQL) {
+					if _, isK := constInt(cm.X); !isK {
+						return true
+					}
+				}
+			}
+			return false
+		}
+		// an unexported helper's count may be bounded by every caller before the call
+		bounded0 := bounded
+		var boundedDeep func(p *ssa.Parameter, b *ssa.BasicBlock, extra *Cmp, depth int) bool
+		boundedDeep = func(p *ssa.Parameter, b *ssa.BasicBlock, extra *Cmp, depth int) bool {
+			if bounded0(p, b, extra) {
+				return true
+			}
+			g := p.Parent()
+			if depth > 2 || g.Object() == nil || g.Object().Exported() {
+				return false
+			}
+			idx := -1
+			for i, q := range g.Params {
+				if q == p {
+					idx = i
+				}
+			}
+			sites := 0
+			okAll := true
+			for _, h := range c.P.PkgFuncs(pkg) {
+				allInstrs(h, func(in2 ssa.Instruction) {
+					call, ok := in2.(*ssa.Call)
+					if !ok || origin(staticCallee(&call.Call)) != origin(g) || idx < 0 || idx >= len(call.Call.Args) {
+						return
+					}
+					sites++
+					a := call.Call.Args[idx]
+					if ap, isP := a.(*ssa.Parameter); isP {
+						if !boundedDeep(ap, call.Block(), nil, depth+1) {
+							okAll = false
+						}
+					} else if ph, isPhi := a.(*ssa.Phi); isPhi {
+						for i, e := range ph.Edges {
+							if ep, isP := e.(*ssa.Parameter); isP {
+								pred := ph.Block().Preds[i]
+								var ex *Cmp
+								if iff, ok := pred.Instrs[len(pred.Instrs)-1].(*ssa.If); ok {
+									k := 0
+									if pred.Succs[1] == ph.Block() {
+										k = 1
+									}
+									if cm, ok := edgeCmp(iff, k); ok {
+										ex = &cm
+									}
+								}
+								if !boundedDeep(ep, pred, ex, depth+1) {
+									okAll = false
+								}
+							}
+						}
+					}
+					// any other expression is derived, not the bare count
+				})
+			}
+			return sites > 0 && okAll
+		}
+		bounded = func(p *ssa.Parameter, b *ssa.BasicBlock, extra *Cmp) bool { return boundedDeep(p, b, extra, 0) }
+		n := 0
+		allInstrs(fn, func(in ssa.Instruction) {
+			mk, ok := in.(*ssa.MakeSlice)
+			if !ok {
+				return
+			}
+			for _, sz := range []ssa.Value{mk.Len, mk.Cap} {
+				var bare []*ssa.Parameter
+				okAll := true
+				if p := isParam(sz); p != nil && isIntType(p.Type()) {
+					bare = append(bare, p)
+					if !bounded(p, mk.Block(), nil) {
+						okAll = false
+					}
+				} else if ph, ok := sz.(*ssa.Phi); ok {
+					for i, e := range ph.Edges {
+						if p := isParam(e); p != nil && isIntType(p.Type()) {
+							bare = append(bare, p)
+							pred := ph.Block().Preds[i]
+							var extra *Cmp
+							if iff, ok := pred.Instrs[len(pred.Instrs)-1].(*ssa.If); ok {
+								idx := 0
+								if pred.Succs[1] == ph.Block() {
+									idx = 1
+								}
+								if cm, ok := edgeCmp(iff, idx); ok {
+									extra = &cm
+								}
+							}
+							if !bounded(p, pred, extra) {
+								okAll = false
+							}
+						}
+					}
+				}
+				if len(bare) == 0 {
+					continue
+				}
+				n++
+				c.sawFn(fnName(fn))
+				c.judge(okAll, "R-ALLOC-BOUNDED", fmt.Sprintf("%s:make sized by %s #%d", fnName(fn), bare[0].Name(), n), mk.Pos(), "the count is bounded by a length where it sizes the allocation", fmt.Sprintf("the allocation is sized by the parameter %s as passed in: a count larger than the input (which the documentation allows and caps) makes it panic or allocate without bound", bare[0].Name()))
+			}
+		})
 	}
 }
